@@ -64,11 +64,13 @@ Switch == /\ stage = 2
 
 \* stage 3..: clause calls holding one field of a source in scope (or of a foreign table in WHERE)
 ClauseCalls(f) ==
-    (IF kind \in {"select", "insertselect"} THEN
+    (IF kind = "select" \/ (kind = "insertselect" /\ MaxClauses > 2) THEN
         { [m |-> "select", terms |-> <<f>>], [m |-> "groupby", terms |-> <<f>>], [m |-> "having", crit |-> Gt(Sum(f), Num("1"))],
-          [m |-> "orderby", terms |-> <<f>>, dir |-> ""] } ELSE {})
+          [m |-> "orderby", terms |-> <<f>>, dir |-> ""] }
+     ELSE IF kind = "insertselect" THEN { [m |-> "select", terms |-> <<f>>], [m |-> "orderby", terms |-> <<f>>, dir |-> ""] }    \* (quick tier: two clause calls)
+     ELSE {})
     \cup (IF kind \in {"select", "insertselect", "update", "delete"} THEN {[m |-> "where", crit |-> Cmp(f, Num("1"))]} ELSE {})
-    \cup (IF kind = "select" THEN {[m |-> "prewhere", crit |-> Cmp(f, Num("2"))]} ELSE {})
+    \cup (IF kind = "select" /\ (MaxClauses > 2 \/ f.src \notin {"A3", "S4", "A1"}) THEN {[m |-> "prewhere", crit |-> Cmp(f, Num("2"))]} ELSE {})
     \cup (IF kind = "update" THEN {[m |-> "set", col |-> "b", val |-> f], [m |-> "setf", f |-> f, val |-> Num("5")]} ELSE {})
     \cup (IF kind = "delete" THEN {[m |-> "orderby", terms |-> <<f>>, dir |-> ""]} ELSE {})
     \cup (IF kind \in {"update", "delete", "insertvalues"} THEN {[m |-> "returning", terms |-> <<f>>]} ELSE {})
